@@ -1,4 +1,4 @@
-// KNOWN FINDING (open): build with -fsanitize=address; heap-use-after-free in FloatRandomT::uint64()
+// FIXED by /repo cef50b1 (was a known finding): build with -fsanitize=address; heap-use-after-free in FloatRandomT::uint64()
 #define HFSM2_ENABLE_UTILITY_THEORY
 #include <hfsm2/machine.hpp>
 #include <new>
